@@ -1,7 +1,7 @@
 /-
 Model of `deap/tools/support.py` `Statistics`, `MultiStatistics`, `Logbook` (C18), transcribed
 from the tree as it is now (with the repairs F3 slice deletion, F4 negative `pop`, F12 empty
-logbook text).  Import-free.
+logbook text, F18 `pop` also pops the chapters).  Import-free.
 
 Names (dictionary keys, chapter names) are numbers, scalar values are integers.  A Python `dict`
 is an association list with unique keys in insertion order; every observation the property makes
@@ -103,35 +103,39 @@ def select (names : List Name) (lb : LB) : Sel :=
   | [n] => .single (column lb n)                      -- :377-378
   | ns => .multi (ns.map (column lb))                 -- :379
 
-/-- `index + len(self) if index < 0 else index` (support.py:423). -/
+/-- `index + len(self) if index < 0 else index` (support.py:419). -/
 def position (len : Nat) (index : Int) : Int := if index < 0 then index + len else index
 
-/-- `Logbook.pop(index)` (support.py:410-426).  Returns the removed row, or `none` for the
-`IndexError` of `list.pop` — the `buffindex` adjustment (:424-425) happens before it. -/
+mutual
+/-- `Logbook.pop(index)` (support.py:406-424).  Returns the removed row, or `none` for an
+`IndexError`.  Order of the code: the `buffindex` adjustment (:420-421), then `chapter.pop(index)`
+for every chapter (:422-423; chapters are logbooks, so this recurses; the first chapter that
+raises leaves the later chapters and the list itself untouched), then `list.pop` (:424). -/
 def pop (index : Int) : LB → Option Row × LB
   | .mk rows chs b h lh =>
-      let pos := position rows.length index                                  -- :423
-      let b' := if 0 ≤ pos ∧ pos < (b : Int) then b - 1 else b               -- :424-425
-      if 0 ≤ pos ∧ pos < (rows.length : Int) then                            -- :426 list.pop
-        (rows[pos.toNat]?, .mk (rows.eraseIdx pos.toNat) chs b' h lh)
-      else (none, .mk rows chs b' h lh)
-
-/-- `for chapter in self.chapters.values(): chapter.pop(key)` (support.py:403-404, 407-408); the
-flag says that a chapter raised `IndexError`, which leaves the remaining chapters untouched. -/
-def popChapters (key : Int) : List (Name × LB) → List (Name × LB) × Bool
+      let pos := position rows.length index                                  -- :419
+      let b' := if 0 ≤ pos ∧ pos < (b : Int) then b - 1 else b               -- :420-421
+      match popChapters index chs with                                       -- :422-423
+      | (chs', true) => (none, .mk rows chs' b' h lh)
+      | (chs', false) =>
+        if 0 ≤ pos ∧ pos < (rows.length : Int) then                          -- :424 list.pop
+          (rows[pos.toNat]?, .mk (rows.eraseIdx pos.toNat) chs' b' h lh)
+        else (none, .mk rows chs' b' h lh)
+/-- `for chapter in self.chapters.values(): chapter.pop(index)`; the flag says that a chapter
+raised `IndexError`. -/
+def popChapters (index : Int) : List (Name × LB) → List (Name × LB) × Bool
   | [] => ([], false)
   | (k, ch) :: rest =>
-      match pop key ch with
+      match pop index ch with
       | (none, ch') => ((k, ch') :: rest, true)
-      | (some _, ch') => let r := popChapters key rest; ((k, ch') :: r.1, r.2)
+      | (some _, ch') => let r := popChapters index rest; ((k, ch') :: r.1, r.2)
+end
 
-/-- `del logbook[key]` for an integer key (support.py:405-408); `true` = `IndexError`. -/
+/-- `del logbook[key]` for an integer key (support.py:403-404): `self.pop(key)`; `true` = `IndexError`. -/
 def delIndex (key : Int) (lb : LB) : LB × Bool :=
   match pop key lb with
   | (none, lb') => (lb', true)
-  | (some _, .mk rows chs b h lh) =>
-      let r := popChapters key chs
-      (.mk rows r.1 b h lh, r.2)
+  | (some _, lb') => (lb', false)
 
 /-- insertion into a descending list -/
 def insertDesc (x : Nat) : List Nat → List Nat
@@ -144,7 +148,7 @@ def sortDesc : List Nat → List Nat
   | [] => []
   | x :: xs => insertDesc x (sortDesc xs)
 
-/-- the loop of the slice branch (support.py:401-404) over the sorted indices -/
+/-- the loop of the slice branch (support.py:401-402) over the sorted indices -/
 def delEach : List Nat → LB → LB × Bool
   | [], lb => (lb, false)
   | i :: is, lb =>
@@ -152,13 +156,13 @@ def delEach : List Nat → LB → LB × Bool
       | (lb', true) => (lb', true)
       | (lb', false) => delEach is lb'
 
-/-- `del logbook[slice]` (support.py:400-404); `idx` is `range(*key.indices(len(self)))` as
+/-- `del logbook[slice]` (support.py:400-402); `idx` is `range(*key.indices(len(self)))` as
 computed by Python. -/
 def delSlice (idx : List Nat) (lb : LB) : LB × Bool := delEach (sortDesc idx) lb
 
-/-- What `__txt__(startindex)` emits (support.py:428-483): nothing for an empty logbook (:429-430);
-otherwise the rows from `startindex` on (:446) and, iff `startindex == 0 and self.log_header`
-(:459), a header. -/
+/-- What `__txt__(startindex)` emits (support.py:426-483): nothing for an empty logbook (:427-428);
+otherwise the rows from `startindex` on (:444) and, iff `startindex == 0 and self.log_header`
+(:457), a header. -/
 structure Text where
   header : Bool
   rows : List Row
